@@ -154,3 +154,50 @@ Theorem honest_sync_meets_c01_spec :
     FHO body seg (missing s seg) (attach body content (rev (missing s seg) ++ s)) (length seg) None.
 Proof. exact honest_sync_meets_c01_spec_proved. Qed.
 Print Assumptions honest_sync_meets_c01_spec.
+
+(* ---- phase 2: further ties to the Gallina regenerated from the Go source (proofs/GenTie_C02.v) ---- *)
+From Coq Require Import ZArith NArith List Bool Lia String.
+From Lib Require Import Bytes.
+From Model Require Import C01_ChainSync C02_FetchVerify.
+From Proofs Require Import GenTie_Lib.
+From Gen Require Import Gen_Consts Gen_Funcs_prelude Gen_Funcs_ipnisync.
+Import ListNotations.
+Local Open Scope Z_scope.
+From Proofs Require Import GenTie_C02.
+
+Theorem gen_tie_fetchBlock_verify_commit : forall (CID LNK CTX RD WR LC LS CM : Type) (commit : CM -> LNK -> option string) (mkl : CID -> LNK) (mklc : CTX -> LC) (opener : LS -> LC -> WR * CM * option string) (ctx : CTX) (c : CID) (tee : RD) (lsys : LS) (hash : list N) (sumerr : option string) (sum : list N), match go_verify CID LNK CTX RD WR LC LS CM commit mkl mklc opener ctx c tee lsys hash sumerr sum with | FReturn ret tr => has_stmt commit_stmt tr = isNone (snd (opener lsys (mklc ctx))) && isNone sumerr && Bytes.bytes_eqb hash sum /\ (ret = "return nil" <-> has_stmt commit_stmt tr = true /\ commit (snd (fst (opener lsys (mklc ctx)))) (mkl c) = None) | _ => False end.
+Proof. exact GenTie_C02.tie_fetchBlock_verify_commit. Qed.
+Print Assumptions gen_tie_fetchBlock_verify_commit.
+
+Theorem gen_model_fetch_block_stores : forall (body : Type) (hashes_to : body -> cid -> bool) links_of
+    (resp : responder body) (reqs : list cid) (c : cid) (s : bstore body) (b : body),
+  local_ok body hashes_to links_of s c = None -> resp (List.length reqs) = Some b ->
+  fetch_block body hashes_to links_of resp reqs c s =
+    if hashes_to b c then ((reqs ++ [c])%list, (c, b) :: s, Some b) else ((reqs ++ [c])%list, s, None).
+Proof. exact GenTie_C02.model_fetch_block_stores. Qed.
+Print Assumptions gen_model_fetch_block_stores.
+
+Theorem gen_tie_fetchBlock_present : forall (ND : Type) (isnil : ND -> bool) (n : ND) (err : option string),
+  match ipnisync_fetchBlock_present ND isnil err n with
+  | FReturn ret _ => ret = "return nil"%string /\ isnil n = false /\ err = None
+  | FFall _ => isnil n = true \/ err <> None
+  | _ => False
+  end.
+Proof. exact GenTie_C02.tie_fetchBlock_present. Qed.
+Print Assumptions gen_tie_fetchBlock_present.
+
+Theorem gen_model_fetch_block_present : forall (body : Type) (hashes_to : body -> cid -> bool) links_of
+    (resp : responder body) (reqs : list cid) (c : cid) (s : bstore body) (b : body),
+  local_ok body hashes_to links_of s c = Some b ->
+  fetch_block body hashes_to links_of resp reqs c s = (reqs, s, Some b).
+Proof. exact GenTie_C02.model_fetch_block_present. Qed.
+Print Assumptions gen_model_fetch_block_present.
+
+Theorem gen_tie_walkFetch_opener : forall (CID RD : Type) (c : CID) (ferr rerr : option string) (r : RD) (order : list CID),
+  match ipnisync_walkFetch_opener CID RD c ferr rerr r order with
+  | FReturn _ (order', _) =>
+      order' = if (isNone ferr && isNone rerr)%bool then (order ++ [c])%list else order
+  | _ => False
+  end.
+Proof. exact GenTie_C02.tie_walkFetch_opener. Qed.
+Print Assumptions gen_tie_walkFetch_opener.
